@@ -136,6 +136,11 @@ def run_bfs(init, depth, res):
             for h in hist:
                 apply_impl(n, h)
             if state_of(n) != s:
+                # the history no longer reaches the model state: an earlier transition on this path already
+                # disagreed with the model (and was reported); without such a report this is a harness fault
+                if res.violations:
+                    res.hist['successor-of-a-violating-state-skipped'] += 1
+                    break
                 raise core.HarnessError('replay of %r from %r diverged' % (hist, init))
             try:
                 ir = apply_impl(n, op)
@@ -283,8 +288,14 @@ def node_value(v):
 
 def defaults_cases(res):
     for di, d in enumerate(DEFAULTS):
-        for override in (False, True):
-            if override:
+        for override in (False, True, 'over-5'):
+            if override == 'over-5':
+                # the signature says 5, _yatiml_defaults says d (also when d is None): d is the default
+                class K:
+                    def __init__(self, req: int, x=5, y: int = 3) -> None:
+                        pass
+                    _yatiml_defaults = {'x': d}
+            elif override:
                 class K:
                     def __init__(self, req: int, x=None, y: int = 3) -> None:
                         pass
